@@ -59,6 +59,15 @@ def run(rep):
         f = formgen.decorate(c["rows"], seed=rep.seed + i, feat=corpus.ALL_FEAT)
         wb = f.wb()
         jobs.append({"wb": wb, "shapes": c["rows"], "fmt": "dict", "predicted_lost": jsongen.features_of(wb)})
+    # the workbooks the repository's own test-suite converts (frozen input corpus), accepted ones
+    from harness import suitecorpus
+
+    ns = 0
+    for i, it in enumerate(suitecorpus.load()):
+        if it["status_at_freeze"] == "ok":
+            jobs.append({"wb": it["wb"], "suite_form": i, "fmt": "dict", "predicted_lost": jsongen.features_of(it["wb"])})
+            ns += 1
+    rep.bounds["suite_corpus"] = ns
     outs = conv.map_cases(_run, jobs, chunksize=16)
     for o in outs:
         if o.get("status") == "harness_error":
